@@ -21,7 +21,7 @@
    - [legal_history]: every operation is strictly legal and no two accepted
      headers share a hash (collision freedom of the header hash). *)
 From Coq Require Import Permutation.
-From VF.C18 Require Import Model ProofsA ProofsB ProofsC ProofsD ProofsE ProofsF ProofsG ProofsH ProofsI ProofsJ Bridge.
+From VF.C18 Require Import Model ProofsA ProofsB ProofsC ProofsD ProofsE ProofsF ProofsG ProofsH ProofsI ProofsJ ProofsK Bridge.
 From VF.gen Require Import C18Locks.
 Local Open Scope N_scope.
 
@@ -175,6 +175,62 @@ Theorem C18_lock_discipline_every_entry_point :
 Proof. exact lock_discipline_forall. Qed.
 Print Assumptions C18_lock_discipline_every_entry_point.
 
+(* 9. Sync cycles on one queue object.  synchronise()/syncWithPeer() start every
+   cycle with queue.Reset(), peers.Reset() and queue.Prepare(origin+1).  Whatever
+   state the earlier cycles left (requests outstanding, results unretrieved, an
+   offset above the new origin after a rollback ...), the queue is then EXACTLY a
+   fresh queue prepared at the new origin: head, task pool, task queue, pending
+   pool, done pool, result cache and - because Prepare only ever raises it - the
+   result offset must all be back at their initial values. *)
+Theorem C18_new_cycle_is_fresh_queue :
+  forall s o,
+    new_cycle s o = init (length (cache s)) o /\
+    (let s' := new_cycle s o in
+     head s' = 0 /\ tpool s' = [] /\ tqueue s' = [] /\ pend s' = [] /\ done s' = [] /\
+     cache s' = repeat None (length (cache s)) /\ offset s' = o /\ lacks s' = []).
+Proof. exact (fun s o => conj (new_cycle_fresh s o) (new_cycle_fields s o)). Qed.
+Print Assumptions C18_new_cycle_is_fresh_queue.
+
+(* ... hence every cycle, after any earlier history (legal or not, cut anywhere),
+   hands out start, start+1, ... relative to ITS OWN origin, *)
+Theorem C18_every_cycle_order_once :
+  forall derive empty_root s o ops,
+    map rnum (t_released (cycle derive empty_root s o ops)) =
+    Nseq o (length (t_released (cycle derive empty_root s o ops))).
+Proof. exact every_cycle_order_once. Qed.
+Print Assumptions C18_every_cycle_order_once.
+
+(* ... and satisfies every clause of C18_full (prefix, matching bodies, nothing
+   lost, completion) relative to its own origin. *)
+Theorem C18_every_cycle_full :
+  forall (derive : list N -> N) (empty_root : N), derive [] = empty_root ->
+  forall (s : state), (1 <= length (cache s))%nat ->
+  forall (o : N) (ops : list op),
+  legal_history derive empty_root (length (cache s)) o ops ->
+  let t := cycle derive empty_root s o ops in
+  let st := t_state t in
+  map rnum (t_released t) = Nseq o (length (t_released t)) /\
+  map r_hdr (t_released t) = firstn (length (t_released t)) (t_scheduled t) /\
+  Forall (fun r => derive (r_txs r) = h_root (r_hdr r)) (t_released t) /\
+  Permutation (tqueue st ++ flat (pend st) ++ completed st)
+              (skipn (length (t_released t)) (t_scheduled t)) /\
+  (forall (body : header -> list N) (p : N),
+     fresh p st -> (forall h, In h (t_scheduled t) -> derive (body h) = h_root h) ->
+     exists ops',
+       legal_from derive empty_root (strict_legal_op (length (cache s)) o) t ops' /\
+       Forall (only_p p) ops' /\
+       map r_hdr (t_released (cycle derive empty_root s o (ops ++ ops'))) = t_scheduled t).
+Proof. exact every_cycle_full. Qed.
+Print Assumptions C18_every_cycle_full.
+
+(* Bridge: queue.Reset() of the working tree (re)initialises every Go field
+   behind those state components (headerHead, blockTaskPool, blockTaskQueue,
+   blockPendPool, blockDonePool, resultCache, resultOffset). *)
+Theorem C18_reset_reinitialises_every_cycle_field :
+  forall f, In f cycle_fields -> In f c18_reset_assigns.
+Proof. exact reset_reinitialises_cycle_fields. Qed.
+Print Assumptions C18_reset_reinitialises_every_cycle_field.
+
 (* The property, all clauses, for legal histories. *)
 Definition C18_full : Prop :=
   forall (derive : list N -> N) (empty_root : N), derive [] = empty_root ->
@@ -298,3 +354,21 @@ Proof.
     intros H. apply (H []); [|reflexivity]. unfold ex_ops. simpl. tauto.
 Qed.
 Print Assumptions C18_nonvacuous_truncated_answer.
+
+(* the offset is one of the fields that must be reset: with a Reset that keeps it,
+   a second cycle starting below what the first one released (head rolled back to
+   5 after 5 and 6 were handed out) pops its first task at a negative index and
+   loses it; with the real reset the same cycle hands out block 6 again *)
+Definition reset_keeping_offset (s : state) : state :=
+  St 0 [] [] [] [] (repeat None (length (cache s))) (offset s) (lacks s).
+Definition ex_cycle1 : state := t_state (run ex_derive 0 3 5 ex_ops).
+
+Example C18_nonvacuous_second_cycle_below_released :
+  offset ex_cycle1 = 7 /\
+  (let s := prepare 6 (reset_peers (reset_keeping_offset ex_cycle1)) in
+   offset s = 7 /\
+   snd (snd (reserve 0 1 3 3 (fst (schedule_loop [h6; h7] 6 s)))) = true) /\
+  map rnum (t_released (cycle ex_derive 0 ex_cycle1 6
+              [Schedule [h6; h7] 6; Reserve 1 3 3; Deliver 1 [[1]; [2]]; Results])) = [6; 7].
+Proof. vm_compute. auto. Qed.
+Print Assumptions C18_nonvacuous_second_cycle_below_released.
